@@ -143,8 +143,8 @@ macro_rules! decode_len {
 }
 decode_len!(c17_q_base38_decode_refuses_invalid_len2, 2);
 decode_len!(c17_q_base38_decode_refuses_invalid_len3, 3);
-decode_len!(c17_t_base38_decode_refuses_invalid_len5, 5);
+decode_len!(c17_x_base38_decode_refuses_invalid_len5, 5);
 decode_len!(c17_t_base38_decode_refuses_invalid_len4, 4);
-decode_len!(c17_t_base38_decode_refuses_invalid_len6, 6);
-decode_len!(c17_t_base38_decode_refuses_invalid_len7, 7);
-decode_len!(c17_t_base38_decode_refuses_invalid_len9, 9);
+decode_len!(c17_x_base38_decode_refuses_invalid_len6, 6);
+decode_len!(c17_x_base38_decode_refuses_invalid_len7, 7);
+decode_len!(c17_x_base38_decode_refuses_invalid_len9, 9);
